@@ -2,7 +2,7 @@
 
     Model: [SysTransform.simplify_sys] / [SysTransform.replace_anonymous_inputs_with_zero]
     (transform.rs + TransitionSystem::update_expressions); semantics: Spec/System.v. *)
-From Patronus Require Import SysTransform SimplifyBuilders SysTransformProofs CoiSpec.
+From Patronus Require Import SysTransform SimplifyBuilders SysTransformProofs CoiSpec SysReplaceRuns.
 Open Scope N_scope.
 
 (** Simplifying all expressions: same inputs, same state symbols, and every init / next /
@@ -74,6 +74,58 @@ Theorem C11_replace_zero_sound :
 Proof. exact replace_zero_sound_lemma. Qed.
 Print Assumptions C11_replace_zero_sound.
 
+
+(** ** the same at the level of executions: the new system IS the original one restricted to executions in
+    which the removed inputs are zero.  [zero_env removed r] is [r] with the removed inputs at zero.
+    Domain: no anonymous input is at once a state symbol ([states_kept]). *)
+Theorem C11_replace_inputs :
+  forall (sy : sys), sys_ok sy = true ->
+    s_inputs (replace_anonymous_inputs_with_zero sy) = filter (fun i => negb (is_anonymous i)) (s_inputs sy).
+Proof. exact inputs'. Qed.
+Print Assumptions C11_replace_inputs.
+
+(** every run of the new system, seen through [zero_env], is the run of the original system from the
+    zeroed start valuation and the zeroed free choices; *)
+Theorem C11_replace_runs :
+  forall (sy : sys), sys_ok sy = true -> states_kept sy ->
+  forall frees rho,
+    let removed := filter is_anonymous (s_inputs sy) in
+    Forall2 (fun r' r => env_equiv (zero_env removed r') r)
+            (run_from (replace_anonymous_inputs_with_zero sy) rho frees)
+            (run_from sy (zero_env removed rho) (map (zero_env removed) frees)).
+Proof. intros sy H1 H2 frees rho. exact (replace_run_from sy H1 H2 frees rho). Qed.
+Print Assumptions C11_replace_runs.
+
+(** conversely every run of the ORIGINAL system in which the removed inputs are zero is matched by the run of
+    the new system from the same start valuation and the same free choices; *)
+Theorem C11_replace_restriction :
+  forall (sy : sys), sys_ok sy = true -> states_kept sy ->
+  forall frees rho,
+    let removed := filter is_anonymous (s_inputs sy) in
+    env_equiv (zero_env removed rho) rho -> Forall (fun f => env_equiv (zero_env removed f) f) frees ->
+    Forall2 (fun r' r => env_equiv (zero_env removed r') r)
+            (run_from (replace_anonymous_inputs_with_zero sy) rho frees) (run_from sy rho frees).
+Proof. intros sy H1 H2 frees rho. exact (replace_restriction sy H1 H2 frees rho). Qed.
+Print Assumptions C11_replace_restriction.
+
+(** related valuations are initial together and are observed identically (constraints, bad states, outputs). *)
+Theorem C11_replace_initial :
+  forall (sy : sys), sys_ok sy = true -> states_kept sy ->
+  forall rho, is_initial (replace_anonymous_inputs_with_zero sy) rho <->
+              is_initial sy (zero_env (filter is_anonymous (s_inputs sy)) rho).
+Proof. intros sy H1 H2 rho. exact (replace_is_initial sy H1 H2 rho). Qed.
+Print Assumptions C11_replace_initial.
+
+Theorem C11_replace_observations :
+  forall (sy : sys), sys_ok sy = true -> states_kept sy ->
+  forall r' r, env_equiv (zero_env (filter is_anonymous (s_inputs sy)) r') r ->
+    let sy' := replace_anonymous_inputs_with_zero sy in
+    constraints_hold sy' r' = constraints_hold sy r /\ some_bad sy' r' = some_bad sy r /\
+    Forall2 (fun o' o => fst o' = fst o /\ ebv r' (snd o') = ebv r (snd o) /\
+                         forall i, earr r' (snd o') i = earr r (snd o) i) (s_outputs sy') (s_outputs sy).
+Proof. intros sy H1 H2 r' r Hq. exact (replace_observations sy H1 r' r Hq). Qed.
+Print Assumptions C11_replace_observations.
+
 Example C11_example :
   let i0 := BVSymbol "_input_0" 4 in
   let s := BVSymbol "s" 4 in
@@ -84,5 +136,9 @@ Example C11_example :
                s_bads := [BVEqual s (BVLiteral 4 9)]; s_constraints := [] |} in
   sys_ok sy = true /\
   (exists sy', simplify_sys_default sy = Some sy' /\ s_outputs sy' = [("o"%string, s)]) /\
-  s_inputs (replace_anonymous_inputs_with_zero sy) = [BVSymbol "en" 1].
-Proof. vm_compute. split; [reflexivity|]. split; [eexists; split; reflexivity|reflexivity]. Qed.
+  s_inputs (replace_anonymous_inputs_with_zero sy) = [BVSymbol "en" 1] /\
+  states_kept sy.
+Proof.
+  cbv zeta. split; [vm_compute; reflexivity|]. split; [eexists; split; vm_compute; reflexivity|].
+  split; [vm_compute; reflexivity|]. intros st [<-|[]]. vm_compute. reflexivity.
+Qed.
